@@ -1,5 +1,6 @@
 import FtdcVerif.Lemmas.Stream
 import FtdcVerif.Props.C04
+import FtdcVerif.Props.C07
 /-!
 # C09 — streamed output is crash-consistent and survives writer faults
 
@@ -249,5 +250,100 @@ theorem durability_bound (N : Nat) (hN : 1 ≤ N) (ds : List BDoc) :
   have : r.2 = N * q + r.1.count := by omega
   rw [this, Nat.succ_mul, Nat.mul_comm q N]
   omega
+
+/-! ### write faults: nothing accepted is lost, nothing is delivered twice — for every fault script -/
+
+open Ftdc.Props.C07 in
+/-- a flush under ANY writer script keeps `complete writes ++ pending` -/
+theorem flush_any_script (c : Streaming) (rows : List Row)
+    (h : writtenRows c.out ++ c.inner.samples = rows) :
+    writtenRows (c.flush).1.out ++ (c.flush).1.inner.samples = rows := by
+  unfold Streaming.flush
+  by_cases h0 : c.info.2 = 0
+  · simp [h0, h]
+  · simp only [h0, if_false]
+    cases hres : c.resolve with
+    | none => simp [h]
+    | some docs =>
+      have hsam := resolve_samples c.inner docs hres
+      unfold Writer.write
+      cases hsc : c.out.script with
+      | nil =>
+        simp only [if_true]
+        simp only [Streaming.reset, writtenRows, List.map_append, List.flatten_append, List.map_cons,
+          List.map_nil, List.flatten_cons, List.flatten_nil, List.append_nil, hsam]
+        simp only [Better.reset, Better.samples, Option.isSome_none, Bool.false_eq_true, if_false, List.append_nil]
+        exact h
+      | cons r rest =>
+        cases r with
+        | ok =>
+          simp only [if_true]
+          simp only [Streaming.reset, writtenRows, List.map_append, List.flatten_append, List.map_cons,
+            List.map_nil, List.flatten_cons, List.flatten_nil, List.append_nil, hsam]
+          simp only [Better.reset, Better.samples, Option.isSome_none, Bool.false_eq_true, if_false, List.append_nil]
+          exact h
+        | fail =>
+          simp only [Bool.false_eq_true, if_false]
+          exact h
+        | short k =>
+          simp only [Bool.false_eq_true, if_false]
+          simp only [writtenRows, List.map_append, List.flatten_append, List.map_cons, List.map_nil,
+            List.flatten_cons, List.flatten_nil, List.append_nil]
+          exact h
+
+open Ftdc.Props.C07 in
+theorem add_any_script (c : Streaming) (acc : List BDoc) (d : BDoc)
+    (h : writtenRows c.out ++ c.inner.samples = acc.map fun x => (extractDoc x).map (·.1)) :
+    writtenRows (addLog (c, acc) d).1.out ++ (addLog (c, acc) d).1.inner.samples =
+      (addLog (c, acc) d).2.map fun x => (extractDoc x).map (·.1) := by
+  have key : ∀ (c1 : Streaming),
+      writtenRows c1.out ++ c1.inner.samples = acc.map (fun x => (extractDoc x).map (·.1)) →
+      (let r := c1.inner.add d
+       let c2 : Streaming := if r.2 = .ok then { c1 with inner := r.1, count := c1.count + 1 } else c1
+       writtenRows c2.out ++ c2.inner.samples =
+         (if r.2 = .ok then acc ++ [d] else acc).map fun x => (extractDoc x).map (·.1)) := by
+    intro c1 h1
+    by_cases hok : (c1.inner.add d).2 = .ok
+    · simp only [hok, if_true]
+      rw [Better.add_ok_appends _ _ hok, ← List.append_assoc, h1]; simp
+    · simp only [hok, if_false]; exact h1
+  unfold addLog Streaming.add
+  by_cases hfull : c.count ≥ c.maxSamples
+  · simp only [hfull, if_true]
+    have hf := flush_any_script c _ h
+    by_cases hok : (c.flush).2 = true
+    · simp only [hok, Bool.not_true, Bool.false_eq_true, if_false]
+      have := key (c.flush).1 hf
+      by_cases hacc : ((c.flush).1.inner.add d).2 = .ok <;> simp_all
+    · have hok' : (c.flush).2 = false := by simpa using hok
+      simp [hok', hf]
+  · simp only [hfull, if_false, Bool.not_true, Bool.false_eq_true]
+    have := key c h
+    by_cases hacc : (c.inner.add d).2 = .ok <;> simp_all
+
+open Ftdc.Props.C07 in
+/-- **Under every placement of failing and short writes**: after any sequence of `Add`s over a writer
+that follows ANY script of results (ok / error without consuming / short count), the samples in the
+complete writes followed by the pending ones are exactly the accepted samples (those whose `Add`
+returned nil), once each and in order.  So a failing write discards nothing, a later successful flush
+delivers what is pending exactly once, and an `Add` that returned an error added nothing. -/
+theorem faithful_under_any_write_faults (n : Nat) (script : List WriteResult) (ds : List BDoc) :
+    let c0 : Streaming := { Streaming.new n with out := { script := script } }
+    let r := ds.foldl addLog (c0, [])
+    writtenRows r.1.out ++ r.1.inner.samples = r.2.map fun x => (extractDoc x).map (·.1) := by
+  have : ∀ (ds : List BDoc) (c : Streaming) (acc : List BDoc),
+      writtenRows c.out ++ c.inner.samples = acc.map (fun x => (extractDoc x).map (·.1)) →
+      writtenRows (ds.foldl addLog (c, acc)).1.out ++ (ds.foldl addLog (c, acc)).1.inner.samples =
+        (ds.foldl addLog (c, acc)).2.map fun x => (extractDoc x).map (·.1) := by
+    intro ds
+    induction ds with
+    | nil => intro c acc h; exact h
+    | cons d ds ih =>
+      intro c acc h
+      simp only [List.foldl_cons]
+      have e : addLog (c, acc) d = ((addLog (c, acc) d).1, (addLog (c, acc) d).2) := rfl
+      rw [e]
+      exact ih _ _ (add_any_script c acc d h)
+  exact this ds _ [] (by simp [writtenRows, Streaming.new, Better.samples])
 
 end Ftdc.Props.C09
